@@ -258,6 +258,11 @@ def vtype(ctx):
     if len(some) != 1:
         ctx.fail_closed(['C04', 'C02'], 'R-ANCHOR', 'VBT|exit', 'expected one Some(ItemDefinition{..})', where)
         return
+    # the item is produced for every function list (also an empty one): the only ways to None are a path without last/parent segment
+    nones = [x for x in bt.exits() if x['kind'] in ('none', 'none_prop', 'other', 'passthrough')]
+    okn = all(x['kind'] == 'none_prop' and (find_calls(x['expr'], 'ItemPath::last') or find_calls(x['expr'], 'ItemPath::parent')) for x in nones)
+    ctx.ob(['C06', 'C04', 'C14'], 'R-DOM', 'VBT|always-some', okn,
+           'the vftable struct is generated for every declared vftable block, whatever its functions (None only for a path without name/parent): %s' % [(x['kind'], show(x['expr'])[:60]) for x in nones if x['kind'] != 'none_prop'], where)
     idf = dict(some[0]['expr'][2][0][1][2])
     isr = dict(idf['state'][2][0][1][2])
     td = None
